@@ -119,7 +119,7 @@ def helper_for_column(di, h, a):
 
 def rand_args(rng, h):
     from_default = {"count": False, "count_unique": False, "first": False, "last": False, "nth": False}
-    a = {"dropna": rng.choice([True, False]), "ddof": rng.choice([0, 1]), "idx": rng.randint(-3, 3), "q4": rng.randint(0, 4)}
+    a = {"dropna": rng.choice([True, False]), "ddof": rng.choice([0, 1, 2]), "idx": rng.randint(-3, 3), "q4": rng.randint(0, 4)}
     return a
 
 
